@@ -22,6 +22,8 @@ structure DState where
   faulted : Bool := false
   crashed : Bool := false
   stopped : Bool := false
+  /-- the files were altered by hand (`fsop`): any prefix may be what is recovered -/
+  tampered : Bool := false
   /-- greatest eviction boundary ever in force in this history (for the D2 classification) -/
   maxBd : Option LogId := none
 
@@ -105,6 +107,9 @@ def batchStates (r : RefLog) : List (LogId × Bytes) → List RefLog
     | .error _ => []
 
 def doWrite (d : DState) (op : Op) : IO DState := do
+  if d.sys.store.isNone then
+    out "ret err notFound"
+    return d
   let (res, sys', evs) := d.sys.call op
   printEvs evs
   out (showRes res)
@@ -160,7 +165,7 @@ allows, and re-base the spec on the one the model recovered. -/
 def rebase (d : DState) : IO DState := do
   if !d.specOn then return d
   let issued := d.hist.size - 1
-  let lo := if d.crashed || d.faulted then d.ackedN else d.flushedN
+  let lo := if d.tampered then 0 else if d.crashed || d.faulted then d.ackedN else d.flushedN
   let hi := issued
   out s!"=range {lo} {hi}"
   let mut found : Option Nat := none
@@ -179,7 +184,7 @@ def rebase (d : DState) : IO DState := do
   | some n =>
     out s!"=rebased {n}"
     return { d with spec := d.hist[n]!, hist := d.hist.extract 0 (n + 1), flushedN := n, ackedN := n,
-                    faulted := false, crashed := false, cbMap := [] }
+                    faulted := false, crashed := false, tampered := false, cbMap := [] }
   | none =>
     out "=rebased none"
     return { d with specOn := false }
@@ -190,6 +195,7 @@ def step (d : DState) (line : String) : IO DState := do
   | [] => return d
   | "begin" :: _ => out line.trimAscii.toString; return {}
   | "end" :: _ => out "end"; return d
+  | "note" :: _ => return d
   | "cfg" :: rest =>
     return { d with sys := { d.sys with cfg := rest.foldl parseCfgTok {} } }
   | _ =>
@@ -201,7 +207,19 @@ def step (d : DState) (line : String) : IO DState := do
     printEvs evs
     match res with
     | .ok _ => out "open ok"
-    | .err k => out s!"open err {showErr k}"
+    | .err k =>
+      out s!"open err {showErr k}"
+      if k == .gap then
+        -- which neighbours do not abut, and is the earlier one shorter than the gap (torn) or complete
+        let ids := d.sys.fs.linkedIds
+        for (a, b) in ids.zip (ids.drop 1) do
+          match d.sys.fs.find a with
+          | some f =>
+            let x := parseChunk f.data
+            let endA := a + (x.1.map (·.2)).foldl (· + ·) 0
+            if endA != b then
+              out s!"#gap prev={a} prev_file_len={f.data.length} prev_records_end={endA} next={b} tail={repr x.2.1}"
+          | none => pure ()
     | .panic _ => out "open panic"
     let d := { d with sys := sys' }
     match res with
@@ -244,9 +262,11 @@ def step (d : DState) (line : String) : IO DState := do
       let d := match res with
         | .ok _ => { d with flushedN := issued,
                             cbMap := match cb with | some c => (c, issued) :: d.cbMap | none => d.cbMap }
+        | .err .notFound => d
         | _ => { d with stopped := true }
       return d
   | ["w", o] =>
+    if d.sys.store.isNone then out "wst none"; return d
     let (sys', evs) := d.sys.workerStep (parseOutcome o)
     printEvs evs
     out s!"wst {showPc sys'.worker.pc} q={sys'.worker.queue.length}"
@@ -256,6 +276,7 @@ def step (d : DState) (line : String) : IO DState := do
     match cbTok.toNat? with
     | none => out "bad-op"; return d
     | some cb =>
+      if d.sys.store.isNone then out "wst none"; return d
       let mut d := d
       let mut n := 0
       let mut done := false
@@ -272,16 +293,73 @@ def step (d : DState) (line : String) : IO DState := do
       out s!"wst {showPc d.sys.worker.pc} q={d.sys.worker.queue.length}"
       return d
   | ["widle"] =>
+    if d.sys.store.isNone then out "wst none"; return d
     let (sys', evs) := d.sys.workerIdle
     printEvs evs
     out s!"wst {showPc sys'.worker.pc} q={sys'.worker.queue.length}"
     return noteEvs { d with sys := sys' } evs
   | ["drain"] => return { d with sys := d.sys.drain }
   | ["drop"] =>
+    if d.sys.store.isNone then out "dropped none"; return d
     let (sys', evs) := d.sys.dropStore
     printEvs evs
     out "dropped"
     return noteEvs { d with sys := sys' } evs
+  | ["crash"] =>
+    -- the process dies now: nothing queued or buffered survives, unlinked files are gone
+    let fs' := d.sys.fs.filter (fun f => f.linked)
+    return { d with sys := { d.sys with fs := fs', store := none, locked := false,
+                                        worker := { files := [], pc := .dead } },
+                    crashed := true }
+  | ["fsop", "flip", id, pos, mask] =>
+    match id.toNat?, pos.toNat?, mask.toNat? with
+    | some id, some pos, some mask =>
+      let fs' := d.sys.fs.update id fun f =>
+        if pos < f.data.length then
+          { f with data := f.data.set pos ((f.data.getD pos 0) ^^^ UInt8.ofNat mask) } else f
+      return { d with sys := { d.sys with fs := fs' }, tampered := true }
+    | _, _, _ => out "bad-op"; return d
+  | "fsop" :: rest =>
+    if d.sys.store.isSome then out "bad-op"; return d
+    let d := { d with tampered := d.tampered || rest.head? != some "settle" }
+    match rest with
+    | ["cut", id, k] =>
+      match id.toNat?, k.toNat? with
+      | some id, some k =>
+        match d.sys.fs.find id with
+        | some f =>
+          out s!"#legal {if f.durable ≤ k && k ≤ f.data.length then "yes" else "no"}"
+          return { d with sys := { d.sys with fs := d.sys.fs.truncate id k } }
+        | none => return d
+      | _, _ => out "bad-op"; return d
+    | ["zero", id, b, m] =>
+      match id.toNat?, b.toNat?, m.toNat? with
+      | some id, some b, some m =>
+        match d.sys.fs.find id with
+        | some f =>
+          let x := parseChunk f.data
+          let offs := offsetsFrom 0 (x.1.map (·.2))
+          let legal := f.durable ≤ b && offs.contains b && 1 ≤ m && b + m ≤ f.data.length
+          out s!"#legal {if legal then "yes" else "no"}"
+          let fs' := d.sys.fs.update id fun f =>
+            { f with data := f.data.take b ++ List.replicate m 0, durable := min f.durable b }
+          return { d with sys := { d.sys with fs := fs' } }
+        | none => return d
+      | _, _, _ => out "bad-op"; return d
+    | ["set", id, pos, val] =>
+      match id.toNat?, pos.toNat?, val.toNat? with
+      | some id, some pos, some val =>
+        let fs' := d.sys.fs.update id fun f =>
+          if pos < f.data.length then { f with data := f.data.set pos (UInt8.ofNat val) } else f
+        return { d with sys := { d.sys with fs := fs' } }
+      | _, _, _ => out "bad-op"; return d
+    | ["rm", id] =>
+      match id.toNat? with
+      | some id => return { d with sys := { d.sys with fs := d.sys.fs.filter (fun f => f.id != id) } }
+      | none => out "bad-op"; return d
+    | ["settle"] =>
+      return { d with sys := { d.sys with fs := d.sys.fs.map fun f => { f with durable := f.data.length } } }
+    | _ => out "bad-op"; return d
   | ["st"] =>
     match d.sys.store with
     | some s =>
